@@ -193,7 +193,20 @@ theorem inv_step (c : Cfg) (hc : c.cloneOwnsPoints = true) (hmo : c.mergeOwnsDic
       · rfl
       · rfl
       · rfl
+  | setup i =>
+      cases hs : st.scns i with
+      | none => simpa [step, hs] using (⟨nextPos, refLt, refInj, ptsOwn, elLt, elOk, basePts, baseEqs, baseEl, noShare⟩ : Inv b st)
+      | some s =>
+          have := refLt _ s hs; have := ptsOwn _ s hs
+          simp only [step, hs]
+          apply inv_frame b st _ ⟨nextPos, refLt, refInj, ptsOwn, elLt, elOk, basePts, baseEqs, baseEl, noShare⟩
+          · rfl
+          · exact same_self st
+          · rfl
+          · simp only [setupScn, updFn]; rw [if_neg (by omega)]
+          · simp only [setupScn, updFn]; rw [if_neg (by omega)]
 
+-- (the `setup` case of `inv_step` is proved as a separate lemma and used below)
 theorem deref_frame (st st' : State) (s : Scn) (hns : s.cShared = false ∧ s.pShared = false)
     (h1 : st'.he s.ref = st.he s.ref)
     (h2 : st'.hp s.ptsRef = st.hp s.ptsRef) (h3 : st'.hm s.ref = st.hm s.ref)
@@ -378,6 +391,35 @@ theorem rel_step (c : Cfg) (hc : c.cloneOwnsPoints = true) (hmo : c.mergeOwnsDic
           simp only [Option.map]
           congr 1
           apply deref_frame _ _ _ (hI.noShare _ _ (by assumption)) <;> simp only [updFn] <;> try (first | rfl | rw [if_neg (by omega)])
+  | setup j =>
+      simp only [step, soloStep]
+      cases hs : st.scns j with
+      | none =>
+          simp only []
+          by_cases hji : j = i
+          · subst hji; rw [if_pos rfl]; refine ⟨hm, ?_⟩
+            simp only [view, hs, Option.map] at hv
+            simp [view, hs, ← hv]
+          · rw [if_neg hji]; exact ⟨hm, hv⟩
+      | some s =>
+          simp only []
+          have hns := hI.noShare j s hs
+          by_cases hji : j = i
+          · subst hji; rw [if_pos rfl]; refine ⟨hm, ?_⟩
+            simp only [view, hs, Option.map] at hv
+            simp [view, hs, ← hv, deref, setupScn, updFn, Solo.setup, scnConsts, scnPts, hns.1, hns.2]
+          · rw [if_neg hji]; refine ⟨hm, ?_⟩
+            rw [← hv]
+            simp only [view, setupScn]
+            cases hsi : st.scns i with
+            | none => rfl
+            | some si =>
+                have h1 := hI.refInj i j si s hsi hs
+                have h2 := hI.ptsOwn i si hsi; have h3 := hI.ptsOwn j s hs
+                have hne : si.ref ≠ s.ref := fun h => hji (h1 h).symm
+                simp only [Option.map]
+                congr 1
+                apply deref_frame _ _ _ (hI.noShare _ _ (by assumption)) <;> simp only [updFn] <;> try (first | rfl | rw [if_neg (by omega)])
 
 theorem run_rel (c : Cfg) (hc : c.cloneOwnsPoints = true) (hmo : c.mergeOwnsDict = true) (hrr : c.reregFreshClone = true) (b : Base) (i : Nat) (ops : List Op) :
     ∀ (st : State) (ss : SoloSt), Inv b st → Rel st i ss →
@@ -402,6 +444,7 @@ def relevant (i : Nat) : Op → Bool
   | .reset j => j == i
   | .step j _ _ => j == i
   | .evalBase => false
+  | .setup j => j == i
 
 theorem solo_irrelevant (b : Base) (i : Nat) (ss : SoloSt) (op : Op) (h : relevant i op = false) :
     soloStep b i ss op = ss := by
@@ -452,6 +495,11 @@ theorem hm0_step (c : Cfg) (hrr : c.reregFreshClone = true) (b : Base) (st : Sta
           cases hl : s.live <;> simp [simulate, applyScn, updFn, h0, hl]
   | evalBase =>
       simp [step, isEvalBase, updFn, baseEff, Base.eff, h.basePts, h.baseEqs, h.baseEl]
+  | setup i =>
+      simp only [step, isEvalBase]
+      cases hs : st.scns i with
+      | none => rfl
+      | some s => rfl
 
 theorem run_base (c : Cfg) (hc : c.cloneOwnsPoints = true) (hmo : c.mergeOwnsDict = true) (hrr : c.reregFreshClone = true) (b : Base) (ops : List Op) :
     ∀ (st : State), Inv b st →
@@ -717,6 +765,12 @@ theorem lock_step (c c' : Cfg) (h1 : c.cloneOwnsElements = c'.cloneOwnsElements)
       intro r; simp only [updFn]; split
       · simp [hM, eraseEntry, Eff.noPts, baseEff]
       · exact hM r
+  | setup i =>
+      rcases noP_cases _ _ (hS i) with ⟨h, h'⟩ | ⟨s, p', h, h'⟩
+      · simp only [step, h, h']; exact ⟨rfl, rfl, rfl, rfl, hS, hM⟩
+      · simp only [step, h, h', setupScn]
+        refine ⟨rfl, rfl, ?_, rfl, hS, hM⟩
+        simp [scnConsts, mgrConsts]
 
 theorem lock_run (c c' : Cfg) (h1 : c.cloneOwnsElements = c'.cloneOwnsElements)
     (h2 : c.mergeOwnsDict = c'.mergeOwnsDict) (hrr : c.reregFreshClone = true) (hrr' : c'.reregFreshClone = true) (b : Base) (ops : List Op) :
@@ -920,6 +974,15 @@ theorem pf_step (c : Cfg) (hmo : c.mergeOwnsDict = true) (hrr : c.reregFreshClon
         · exact hme _ e he
         · simp only [List.mem_singleton] at he; subst he; simpa [baseEff] using hb
       · exact hme r e he
+  | setup i =>
+      simp only [step]
+      cases hs : st.scns i with
+      | none => exact ⟨hb, hmg, hsc, hme⟩
+      | some s =>
+          obtain ⟨h1, h2, h3, h4⟩ := hsc i s hs
+          have hp : scnPts st s = [] := by simp [scnPts, h4, h2]
+          simp only [setupScn, hp, Store.update_nil, updFn_self]
+          exact ⟨hb, hmg, hsc, hme⟩
 
 theorem pf_run (c : Cfg) (hmo : c.mergeOwnsDict = true) (hrr : c.reregFreshClone = true) (b : Base) (ops : List Op)
     (hpf : ∀ op ∈ ops, ptsFree op = true) : ∀ st, PF b st → PF b (ops.foldl (step c b) st) := by
@@ -1087,6 +1150,12 @@ theorem nb_step (c : Cfg) (hrr : c.reregFreshClone = true) (b : Base) (st : Stat
             · cases hk; exact hsc i s hs
             · exact hsc k s' hk
   | evalBase => exact ⟨⟨hmg, hsc⟩, rfl⟩
+  | setup i =>
+      refine ⟨?_, rfl⟩
+      simp only [step]
+      cases hs : st.scns i with
+      | none => exact ⟨hmg, hsc⟩
+      | some s => exact ⟨hmg, hsc⟩
 
 theorem nb_run (c : Cfg) (hrr : c.reregFreshClone = true) (b : Base) (ops : List Op) (hnb : ∀ op ∈ ops, baseFree op = true) :
     ∀ st, NB st → ops.foldl (step c b) st = ops.foldl (step { c with mergeOwnsDict := true } b) st := by
@@ -1124,6 +1193,15 @@ example :
     (∀ op ∈ witnessMergeOps, ptsFree op = true) ∧
     (view (exec ⟨false, false, true, true⟩ witnessBase witnessMergeOps) 1).map (fun s => (s.consts, s.meqs, s.mpts, s.memo.length))
       = some ([(5, 50)], [(5, 50)], [(0, 1)], 1) := by decide
+
+/-- Non-vacuity for file-loaded managers: registration followed by `setup` (the scenario's constants and points are in
+the model before any run), two scenarios of one manager with base constants / base points; slot 1 is untouched by
+slot 0's set-up and run. -/
+example :
+    (view (exec ⟨true, false, true, true⟩ witnessBase
+      [.regMgr 0 [(5, 50)] [(1, 11)], .add 0 0 { noDict with consts := [(5, 51)] }, .setup 0, .add 1 0 noDict, .setup 1, .run 0]) 1).map
+        (fun s => (s.consts, s.meqs, s.mpts, s.memo.length))
+      = some ([(5, 50)], [(5, 50)], [(0, 1), (1, 11)], 0) := by decide
 
 #print axioms C06_full_of_good
 #print axioms C06_results
